@@ -1699,6 +1699,9 @@ func startsWithLparen(node Node) bool {
 		return true // keep ( (
 	case *ArithmCmd:
 		return true // keep ( ((
+	case *FuncDecl:
+		// keep ( () for a zsh anonymous function like "() { foo; }"
+		return !node.RsrvWord && node.Name == nil && len(node.Names) == 0
 	}
 	return false
 }
